@@ -69,6 +69,7 @@ class Ctx:
         self.infeasible = False
         self.in_quant = 0
         self.fact_log = None
+        self.assumed_safety = []  # (regex on "<function>::<obligation name>", reason): declared pre-conditions
         self.lift_vars = []
         self.guards = []  # hypotheses under which obligations are currently emitted (symbolic comprehension bodies)
         self.no_branch = 0
@@ -248,6 +249,19 @@ class Ctx:
 
     def require(self, name, goal, kind="safe", note=""):
         """obligation that is *assumed* afterwards (like assert): later code may rely on it"""
+        import re as _re
+        fn = self.fn_stack[-1] if self.fn_stack else ""
+        for pat, why in self.assumed_safety:
+            if _re.fullmatch(pat, f"{fn.split('.')[-1]}::{name}"):
+                # declared pre-condition of the function under contract (stated in the evidence), not an obligation
+                self.trusted.add(f"requires[{fn.split('.')[-1]}]: {why}")
+                if goal is not True and goal is not False:
+                    g = T.zb(goal)
+                    if self.guards:
+                        g = z3.Implies(z3.And(*self.guards), g)
+                    self.pc.append(g)
+                    self.pc_notes.append("requires " + name)
+                return None
         ob = self.oblige(name, goal, kind, note)
         if goal is not True and goal is not False:
             g = T.zb(goal)
